@@ -1,6 +1,7 @@
 """C06 -- LRUCache: bounded mapping, evicts exactly the least recently used key; views terminate and agree.
 
-Whole reachable state graph of the real LRUCache for capacities 1..3 (thorough: ..4), keys {0..capacity},
+Whole reachable state graph of the real LRUCache for capacities 1..3 (thorough: ..4), and under the core of the
+menu (class LRUCoreSpec) for capacity 4 (thorough: 4, 5); keys {0..capacity},
 values {a,b}, under the full MutableMapping menu (store, lookup, delete, membership, len, iteration, keys,
 values, items, get, pop with and without default, popitem, clear, update with one and two keys, setdefault,
 == against dicts and against another LRUCache with equal / different content).  Every operation is applied in
@@ -77,8 +78,24 @@ class LRUSpec(CacheSpec):
         return all(len(s) >= self.capacity for s in model)     # full: every store of a new key evicts
 
 
-def make_spec(capacity):
-    return LRUSpec(capacity)
+class LRUCoreSpec(LRUSpec):
+    """Larger capacities under the core of the menu (store of one value, look-up, delete, membership, pop, popitem,
+    iteration, items): the whole reachable graph still closes, and the recency list is long enough for a hit
+    on a key that is neither first, second nor last (link surgery in the middle of the list)."""
+
+    def __init__(self, capacity):
+        super().__init__(capacity)
+        self.name = "%s/c=%d/core-menu" % (self.cls_name, capacity)
+
+    def ops(self, impl, model):
+        K = self.keys
+        ops = [("set", k, VALUES[0]) for k in K] + [("get", k) for k in K] + [("del", k) for k in K]
+        ops += [("in", k) for k in K] + [("pop", k) for k in K] + [("popitem",), ("iter",), ("items",)]
+        return ops
+
+
+def make_spec(capacity, core=False):
+    return LRUCoreSpec(capacity) if core else LRUSpec(capacity)
 
 
 def run(report, tier):
@@ -98,6 +115,12 @@ def run(report, tier):
                     report.harness_error("vacuous: LRUCache/c=%d never exercised '%s'" % (cap, f))
         if st.get("no_internals"):
             report.assume("LRUCache no longer has .cache/.list with head: internal agreement not checked")
+    for cap in ((4,) if tier == "quick" else (4, 5)):
+        res = explore_levels(make_spec, (cap, True), report, max_depth=None)
+        if not res["closed"]:
+            report.harness_error("LRUCache/c=%d/core-menu: reachable graph not closed" % cap)
+        if report.cov["exhaustive"] and not report.violations and not report.known_hits and not res["stats"].get("evict"):
+            report.harness_error("vacuous: LRUCache/c=%d/core-menu never evicted" % cap)
     report.assume("values are opaque to the cache (two values suffice to tell a stale from a fresh one); keys are "
                   "hashable ints, capacity+1 of them suffice to overflow")
     report.assume("values()/items()/== may or may not count as uses of the keys (statement silent): any recency "
